@@ -1,6 +1,25 @@
 //@ item canonical.rs struct CanonicalRequest
 //@ end
 
+/// C11: two header maps that agree on every name of the signed list give the same canonical request: headers that are not signed
+/// (their presence, content, multiplicity, order) have no influence on what is signed
+pub open spec fn agree_on(h1: QMap, h2: QMap, names: Seq<Seq<u8>>) -> bool {
+    forall|i: int| 0 <= i < names.len() ==> (h1.contains_key(#[trigger] names[i]) == h2.contains_key(names[i])) && (h1.contains_key(names[i]) ==> h1[names[i]] == h2[names[i]])
+}
+pub proof fn lemma_header_block_frame(h1: QMap, h2: QMap, signed: Seq<Seq<u8>>, n: int)
+    requires 0 <= n <= signed.len(), agree_on(h1, h2, signed)
+    ensures header_block(h1, signed, n) == header_block(h2, signed, n)
+    decreases n
+{
+    if n > 0 { lemma_header_block_frame(h1, h2, signed, n - 1); }
+}
+pub proof fn lemma_unsigned_headers_have_no_influence(method: Seq<u8>, path: Seq<u8>, query: Seq<u8>, h1: QMap, h2: QMap, signed: Seq<Seq<u8>>, body_hash: Seq<u8>)
+    requires agree_on(h1, h2, signed)
+    ensures creq_bytes(method, path, query, h1, signed, body_hash) == creq_bytes(method, path, query, h2, signed, body_hash) //# C11 C01 name=unsigned_headers_have_no_influence
+{
+    lemma_header_block_frame(h1, h2, signed, signed.len() as int);
+}
+
 impl CanonicalRequest {
     /// data-structure invariant established by from_request_parts (DESIGN.md 3.5)
     pub closed spec fn wf(&self) -> bool {
